@@ -61,19 +61,10 @@ def check(case):
             fails.append({"kind": "ret_unmapped", "msg": f"{tag}: return bit {r} is not mapped to any qubit (qubit_map keys {sorted(qc.qubit_map)[:12]})", "pred": None})
         pred = None
         if o.wrong_out and not o.ret_unmapped:
-            # attribution by counterfactual: does the failure vanish when compile_not copies instead of negating in place?
-            CC.install_counterfactual()
-            CC.COUNTERFACTUAL["no_inplace_not"] = True
-            try:
-                qc2, names2, rets2, exprs2, _ = K.compile_case(case, unc)
-                o2 = CC.observe(qc2, names2, rets2, exprs2)
-                if not o2.wrong_out and not o2.ret_unmapped:
-                    pred = "c02_inplace_not_clobbers_operand"
-                cnt["counterfactual_runs"] = cnt.get("counterfactual_runs", 0) + 1
-            except Exception:
-                pass
-            finally:
-                CC.COUNTERFACTUAL["no_inplace_not"] = False
+            # attribution: counterfactual for the in-place negation finding, scratch invariants for recycled dirty ancillas
+            shadow.arm(False)
+            pred = CC.blame_wrong_output(case, unc, K.compile_case, o.log)
+            cnt["counterfactual_runs"] = cnt.get("counterfactual_runs", 0) + 1
         for r, q, row, nrows in o.wrong_out[:2]:
             asg = {nm: (row >> i) & 1 for i, nm in enumerate(names)}
             fails.append({"kind": "wrong_output", "msg": f"{tag}: qubit {q} mapped to {r} ends different from the expression's value on {nrows} inputs, first {asg}; "
